@@ -96,7 +96,11 @@ var vhPieces = [3]string{"", "a", "ab"}
 func VerifH_C05_amplify_string_rep() {
 	run := vhNewRun()
 	fn := vhLibFn(run, "string", "rep")
-	cpu, mem := run.smallLimits(40, 64, fn, vhStr(""), vhInt(0))
+	cm, mm := uint64(16), uint64(24)
+	if verifTier() == 1 {
+		cm, mm = 40, 64
+	}
+	cpu, mem := run.smallLimits(cm, mm, fn, vhStr(""), vhInt(0))
 	n := nondetInt64("N")
 	pieces := 2 // "" and "a"; "ab" as well in the thorough tier
 	if verifTier() == 1 {
